@@ -1,4 +1,5 @@
 import TF.Proofs.Codec
+import TF.Proofs.GenBridgeCodec
 /-!
 # C13 — decoding is total, strict and resource-bounded on arbitrary sequences
 
@@ -244,5 +245,144 @@ theorem zero_width_array_own_encoding (t : Ty) (n : Nat) (vs : List Val) (hs : s
       subst this
       simp [decode, decodeList, hs]
 example : staticLength (.tuple [.phantom, .array 0 .u32, .u32s 0, .struct []]) = some 0 := by decide
+
+end TF.C13
+
+/-! ## regenerated-from-source bridge: strictness and totality of the leaf decoders (P03)
+
+Same regenerated definitions as in `TF/Props/C03.lean` (`TF/Gen/CodecLeaves.lean`, `TF.Gen.Loops.codec_*_decode`, written by
+`tools/rs2lean_conv.py` from the macro bodies and impls of `bfield_codec.rs`; raw Montgomery words, `vals r = r.map
+bfe_value`, errors are variant names, `f_ok` true iff `f` cannot overflow / index out of range / fail an `unwrap`).  The
+bridges `gen_*_decode` (all sequences, `TF/Proofs/GenBridgeCodec.lean`) carry the strictness lemmas above over to the code
+as it is in the source now. -/
+namespace TF.C13
+open TF.Codec TF.Gen TF.GenBridge.Codec
+
+/-- **regenerated leaf decoders = hand model, on every sequence of words**, and none of them can panic (no arithmetic
+    overflow in the limb sums, no index out of range): totality of the leaves for the code as it is now -/
+theorem gen_leaf_decoders_eq_model (r : List Nat) :
+    Loops.codec_u64_decode r = exceptNat (decode .u64 (vals r)) ∧
+    Loops.codec_u128_decode r = exceptNat (decode .u128 (vals r)) ∧
+    Loops.codec_u8_decode r = exceptNat (decode .u8 (vals r)) ∧
+    Loops.codec_u16_decode r = exceptNat (decode .u16 (vals r)) ∧
+    Loops.codec_u32_decode r = exceptNat (decode .u32 (vals r)) ∧
+    Loops.codec_bool_decode r = exceptBool (decode .bool (vals r)) ∧
+    exceptVal (Loops.codec_bfe_decode r) = exceptNat (decode .bfe (vals r)) ∧
+    Loops.codec_u64_decode_ok r = true ∧ Loops.codec_u128_decode_ok r = true ∧ Loops.codec_u8_decode_ok r = true ∧
+    Loops.codec_u16_decode_ok r = true ∧ Loops.codec_u32_decode_ok r = true ∧ Loops.codec_bool_decode_ok r = true ∧
+    Loops.codec_bfe_decode_ok r = true :=
+  ⟨(gen_u64_decode r).1, (gen_u128_decode r).1, (gen_u8_decode r).1, (gen_u16_decode r).1, (gen_u32_decode r).1,
+    (gen_bool_decode r).1, (gen_bfe_decode r).1, (gen_u64_decode r).2, (gen_u128_decode r).2, (gen_u8_decode r).2,
+    (gen_u16_decode r).2, (gen_u32_decode r).2, (gen_bool_decode r).2, (gen_bfe_decode r).2⟩
+example : Loops.codec_u64_decode [bfe_new 18446744069414584320, 0] = .error "ElementOutOfRange" ∧
+    Loops.codec_u64_decode_ok [bfe_new 18446744069414584320, bfe_new 18446744069414584320] = true ∧
+    Loops.codec_u128_decode_ok [bfe_new 4294967295, bfe_new 4294967295, bfe_new 4294967295, bfe_new 4294967295] = true := by
+  decide +kernel
+
+/-- **transfer** of `rejects_limb_out_of_range_u64` / `_u128`: a limb whose value is `≥ 2^32` is rejected with
+    `ElementOutOfRange` by the regenerated decoders, wherever it stands -/
+theorem gen_rejects_limb_out_of_range (a b c d : Nat) :
+    ((2^32 ≤ bfe_value a ∨ 2^32 ≤ bfe_value b) → Loops.codec_u64_decode [a, b] = .error "ElementOutOfRange") ∧
+    ((2^32 ≤ bfe_value a ∨ 2^32 ≤ bfe_value b ∨ 2^32 ≤ bfe_value c ∨ 2^32 ≤ bfe_value d) →
+      Loops.codec_u128_decode [a, b, c, d] = .error "ElementOutOfRange") := by
+  constructor
+  · intro h
+    rw [(gen_u64_decode [a, b]).1]
+    show exceptNat (decode .u64 [bfe_value a, bfe_value b]) = _
+    rw [rejects_limb_out_of_range_u64 _ _ h]; rfl
+  · intro h
+    rw [(gen_u128_decode [a, b, c, d]).1]
+    show exceptNat (decode .u128 [bfe_value a, bfe_value b, bfe_value c, bfe_value d]) = _
+    rw [rejects_limb_out_of_range_u128 _ _ _ _ h]; rfl
+example : (2:Nat)^32 ≤ bfe_value (bfe_new 4294967296) ∧
+    Loops.codec_u128_decode [0, bfe_new 4294967296, 0, 0] = .error "ElementOutOfRange" ∧
+    Loops.codec_u128_decode [0, bfe_new 4294967295, 0, 0] = .ok 18446744069414584320 := by decide +kernel
+
+/-- **transfer** of `rejects_small_out_of_range`, `rejects_limb_out_of_range_u32`, `rejects_bool_out_of_range`: values that
+    do not fit are rejected with `ElementOutOfRange` by the regenerated `u8` / `u16` / `u32` / `bool` decoders -/
+theorem gen_rejects_small_and_bool_out_of_range (a : Nat) :
+    (2^8 ≤ bfe_value a → Loops.codec_u8_decode [a] = .error "ElementOutOfRange") ∧
+    (2^16 ≤ bfe_value a → Loops.codec_u16_decode [a] = .error "ElementOutOfRange") ∧
+    (2^32 ≤ bfe_value a → Loops.codec_u32_decode [a] = .error "ElementOutOfRange") ∧
+    (1 < bfe_value a → Loops.codec_bool_decode [a] = .error "ElementOutOfRange") := by
+  refine ⟨fun h => ?_, fun h => ?_, fun h => ?_, fun h => ?_⟩
+  · rw [(gen_u8_decode [a]).1]
+    show exceptNat (decode .u8 [bfe_value a]) = _
+    rw [(rejects_small_out_of_range _).1 h]; rfl
+  · rw [(gen_u16_decode [a]).1]
+    show exceptNat (decode .u16 [bfe_value a]) = _
+    rw [(rejects_small_out_of_range _).2 h]; rfl
+  · rw [(gen_u32_decode [a]).1]
+    show exceptNat (decode .u32 [bfe_value a]) = _
+    rw [rejects_limb_out_of_range_u32 _ h]; rfl
+  · rw [(gen_bool_decode [a]).1]
+    show exceptBool (decode .bool [bfe_value a]) = _
+    rw [rejects_bool_out_of_range _ h]; rfl
+example : (2:Nat)^8 ≤ bfe_value (bfe_new 256) ∧ Loops.codec_u8_decode [bfe_new 256] = .error "ElementOutOfRange" ∧
+    Loops.codec_u8_decode [bfe_new 255] = .ok 255 ∧ Loops.codec_bool_decode [bfe_new 2] = .error "ElementOutOfRange" ∧
+    Loops.codec_bool_decode [bfe_new 1] = .ok true ∧ Loops.codec_bool_decode [bfe_new 0] = .ok false := by
+  decide +kernel
+
+/-- **transfer** of `rejects_wrong_length`: the regenerated leaf decoders accept only sequences of exactly their static
+    length, and say which way the length is wrong -/
+theorem gen_rejects_wrong_length (r : List Nat) (n : Nat) :
+    (Loops.codec_u64_decode r = .ok n → some r.length = Loops.codec_u64_static_length) ∧
+    (Loops.codec_u128_decode r = .ok n → some r.length = Loops.codec_u128_static_length) ∧
+    (Loops.codec_u8_decode r = .ok n → some r.length = Loops.codec_u8_static_length) ∧
+    (Loops.codec_u16_decode r = .ok n → some r.length = Loops.codec_u16_static_length) ∧
+    (Loops.codec_u32_decode r = .ok n → some r.length = Loops.codec_u32_static_length) ∧
+    (r = [] → Loops.codec_u64_decode r = .error "EmptySequence" ∧ Loops.codec_u8_decode r = .error "EmptySequence") ∧
+    (0 < r.length → r.length < 2 → Loops.codec_u64_decode r = .error "SequenceTooShort") ∧
+    (2 < r.length → Loops.codec_u64_decode r = .error "SequenceTooLong") ∧
+    (0 < r.length → r.length < 4 → Loops.codec_u128_decode r = .error "SequenceTooShort") ∧
+    (4 < r.length → Loops.codec_u128_decode r = .error "SequenceTooLong") ∧
+    (1 < r.length → Loops.codec_u8_decode r = .error "SequenceTooLong" ∧ Loops.codec_u16_decode r = .error "SequenceTooLong" ∧
+      Loops.codec_u32_decode r = .error "SequenceTooLong") := by
+  have hl : (vals r).length = r.length := by unfold vals; rw [List.length_map]
+  have lim : ∀ k, exceptNat (decodeLimbs k (vals r)) = .ok n → r.length = k := by
+    intro k h
+    unfold decodeLimbs at h
+    by_cases h1 : (vals r).isEmpty = true
+    · rw [if_pos h1] at h; simp only [exceptNat] at h; cases h
+    · rw [if_neg h1] at h
+      by_cases h2 : (vals r).length < k
+      · rw [if_pos h2] at h; simp only [exceptNat] at h; cases h
+      · rw [if_neg h2] at h
+        by_cases h3 : (vals r).length > k
+        · rw [if_pos h3] at h; simp only [exceptNat] at h; cases h
+        · omega
+  have sm : ∀ b, exceptNat (decodeSmall b (vals r)) = .ok n → r.length = 1 := by
+    intro b h
+    match r, h with
+    | [_], _ => rfl
+    | [], h => simp only [vals, List.map_nil, decodeSmall, exceptNat] at h; cases h
+    | _ :: _ :: _, h => simp only [vals, List.map_cons, decodeSmall, exceptNat] at h; cases h
+  have d64 : decode .u64 (vals r) = decodeLimbs 2 (vals r) := by simp only [decode]
+  have d128 : decode .u128 (vals r) = decodeLimbs 4 (vals r) := by simp only [decode]
+  have d8 : decode .u8 (vals r) = decodeSmall (2^8) (vals r) := by simp only [decode]
+  have d16 : decode .u16 (vals r) = decodeSmall (2^16) (vals r) := by simp only [decode]
+  have d32 : decode .u32 (vals r) = decodeSmall (2^32) (vals r) := by simp only [decode]
+  refine ⟨fun h => ?_, fun h => ?_, fun h => ?_, fun h => ?_, fun h => ?_, fun h => ?_, fun h0 h => ?_, fun h => ?_,
+    fun h0 h => ?_, fun h => ?_, fun h => ?_⟩
+  · rw [(gen_u64_decode r).1, d64] at h; rw [lim 2 h]; rfl
+  · rw [(gen_u128_decode r).1, d128] at h; rw [lim 4 h]; rfl
+  · rw [(gen_u8_decode r).1, d8] at h; rw [sm _ h]; rfl
+  · rw [(gen_u16_decode r).1, d16] at h; rw [sm _ h]; rfl
+  · rw [(gen_u32_decode r).1, d32] at h; rw [sm _ h]; rfl
+  · subst h; exact ⟨rfl, rfl⟩
+  · match r, h0, h with
+    | [_], _, _ => rfl
+  · match r, h with
+    | _ :: _ :: _ :: _, _ => rfl
+  · match r, h0, h with
+    | [_], _, _ => rfl
+    | [_, _], _, _ => rfl
+    | [_, _, _], _, _ => rfl
+  · match r, h with
+    | _ :: _ :: _ :: _ :: _ :: _, _ => rfl
+  · match r, h with
+    | _ :: _ :: _, _ => exact ⟨rfl, rfl, rfl⟩
+example : Loops.codec_u64_decode [0] = .error "SequenceTooShort" ∧ Loops.codec_u128_decode [0, 0, 0, 0, 0] = .error "SequenceTooLong" ∧
+    Loops.codec_u32_decode [0, 0] = .error "SequenceTooLong" := by decide +kernel
 
 end TF.C13
